@@ -477,7 +477,12 @@ func (e *c18Exec) stepOp(r *runCtx, oc *opCtx, in *inputs, res fhir.Resource, ci
 	denotes := "" // non-empty: the path selects something else than the element it was spelled for
 	if op.Want != "" && (op.Contained == nil || cont != nil) && sel.compileErr == nil && sel.evalErr == nil && sel.panicked == "" && op.State == digest(string(msgBytes(mroot))) {
 		st.probe("denotation-checked")
-		if len(sel.items) == 1 && !sel.located[0] {
+		if op.Want == "-" {
+			st.probe("denotation-nothing-checked")
+			if len(sel.items) != 0 {
+				denotes = fmt.Sprintf("the path was spelled with a filter that selects no entry of the resource in this very state (a repeated child with several values compared with one of them), but %s", describeSel(&sel))
+			}
+		} else if len(sel.items) == 1 && !sel.located[0] {
 			// a whole contained entry: navigation hands out the unpacked copy, which has no place in the tree
 		} else if len(sel.items) != 1 || strings.TrimSuffix(sel.locs[0].String(), "~") != strings.TrimSuffix(op.Want, "~") { // (~: the alternative inside a choice slot - one place in the tree either way)
 			denotes = fmt.Sprintf("the path was spelled for the element at %s of the resource in this very state, but %s", op.Want, describeSel(&sel))
